@@ -105,3 +105,51 @@ pub fn new_lowrank_transform<M: crate::Math>(
 }
 
 pub use crate::storage::{ChainStorage, StorageConfig, TraceStorage};
+
+// ---------------------------------------------------------------------------------------------
+// Event log and schedule perturbation for the parallel sampler (chain loop / controller).
+
+static EVENTS: std::sync::Mutex<Vec<(u64, u8, u64)>> = std::sync::Mutex::new(Vec::new());
+static SCHED_SEED: std::sync::atomic::AtomicU64 = std::sync::atomic::AtomicU64::new(0);
+static SCHED_COUNTER: std::sync::atomic::AtomicU64 = std::sync::atomic::AtomicU64::new(0);
+
+/// Record `(chain, code, value)`; when a schedule seed is armed, also perturb the schedule here
+/// (yield or a short sleep chosen pseudo-randomly from the seed and a global counter).
+///
+/// Codes (chain loop): 0 task start, 1 loop top with message code (0 disconnected, 1 empty,
+/// 2 pause, 3 resume), 2 blocking receive, 3 draw computed, 4 trace slot gone, 5 draw recorded
+/// (value = number recorded), 6 task end (value 1 = Ok). Controller: 10 pause, 11 continue.
+pub fn chain_event(chain: u64, code: u8, value: u64) {
+    use std::sync::atomic::Ordering;
+    if let Ok(mut ev) = EVENTS.lock() {
+        ev.push((chain, code, value));
+    }
+    let seed = SCHED_SEED.load(Ordering::Relaxed);
+    if seed != 0 {
+        let c = SCHED_COUNTER.fetch_add(1, Ordering::Relaxed);
+        let mut z = seed ^ c.wrapping_mul(0x9E37_79B9_7F4A_7C15) ^ chain.wrapping_mul(0xD6E8_FEB8_6659_FD93);
+        z = (z ^ (z >> 30)).wrapping_mul(0xBF58_476D_1CE4_E5B9);
+        z = (z ^ (z >> 27)).wrapping_mul(0x94D0_49BB_1331_11EB);
+        z ^= z >> 31;
+        match z % 8 {
+            0 | 1 => std::thread::yield_now(),
+            2 => std::thread::sleep(std::time::Duration::from_micros(20 + (z >> 8) % 200)),
+            3 => std::thread::sleep(std::time::Duration::from_micros(300 + (z >> 8) % 1500)),
+            _ => {}
+        }
+    }
+}
+
+/// Arm (seed != 0) or disarm (seed == 0) the schedule perturbation and clear the event log.
+pub fn arm_schedule(seed: u64) {
+    SCHED_SEED.store(seed, std::sync::atomic::Ordering::Relaxed);
+    SCHED_COUNTER.store(0, std::sync::atomic::Ordering::Relaxed);
+    if let Ok(mut ev) = EVENTS.lock() {
+        ev.clear();
+    }
+}
+
+/// Take (and clear) the event log.
+pub fn take_events() -> Vec<(u64, u8, u64)> {
+    EVENTS.lock().map(|mut e| std::mem::take(&mut *e)).unwrap_or_default()
+}
